@@ -94,3 +94,101 @@ def der_octets(bs):
 def der_ct(x, y, h, c):
     body = der_int(x) + der_int(y) + der_octets(h) + der_octets(c)
     return b"\x30" + der_len(len(body)) + body
+
+
+# ---- roots of a monic cubic over GF(p) (generator side only: used to construct curve points whose
+#      y^2 has a chosen Montgomery representation, e.g. mont(y^2) < 2^256 - p) ----
+def _pmulmod(a, b, f):
+    """a*b mod f, polynomials as coefficient lists (low first), f monic of degree 3"""
+    r = [0] * (len(a) + len(b) - 1)
+    for i, x in enumerate(a):
+        if x:
+            for j, y in enumerate(b):
+                r[i + j] = (r[i + j] + x * y) % p
+    while len(r) > 3:
+        c = r.pop()
+        d = len(r) - 3
+        for i in range(3):
+            r[d + i] = (r[d + i] - c * f[i]) % p
+    return r + [0] * (3 - len(r))
+
+
+def _ppow(base, e, f):
+    r = [1, 0, 0]
+    while e:
+        if e & 1: r = _pmulmod(r, base, f)
+        base = _pmulmod(base, base, f)
+        e >>= 1
+    return r
+
+
+def _pgcd(a, b):
+    def trim(x):
+        while x and x[-1] == 0: x = x[:-1]
+        return x
+    a, b = trim(a[:]), trim(b[:])
+    while b:
+        while len(a) >= len(b):
+            c = a[-1] * inv(b[-1], p) % p
+            d = len(a) - len(b)
+            for i in range(len(b)):
+                a[d + i] = (a[d + i] - c * b[i]) % p
+            a = trim(a)
+            if not a: break
+        a, b = b, a
+    if a:
+        c = inv(a[-1], p)
+        a = [x * c % p for x in a]
+    return a
+
+
+def cubic_roots(c2, c1, c0, rnd):
+    """roots in GF(p) of x^3 + c2 x^2 + c1 x + c0"""
+    f = [c0 % p, c1 % p, c2 % p]            # without the leading 1
+    full = f + [1]
+    xp = _ppow([0, 1, 0], p, f)             # x^p mod f
+    g = _pgcd(full, [(xp[0]) % p, (xp[1] - 1) % p, xp[2]])   # gcd(f, x^p - x): product of the linear factors
+    roots = []
+    def split(h):
+        deg = len(h) - 1
+        if deg <= 0: return
+        if deg == 1:
+            roots.append((-h[0]) % p); return
+        while True:
+            a = rnd(p)
+            # (x + a)^((p-1)/2) - 1 mod h
+            if deg == 3:
+                t = _ppow([a, 1, 0], (p - 1) // 2, h[:3])
+                t[0] = (t[0] - 1) % p
+                d = _pgcd(h, t)
+            else:   # degree 2: work modulo h by padding to a cubic h * (x)
+                hh = [0] + h[:]          # x * h, monic cubic
+                t = _ppow([a, 1, 0], (p - 1) // 2, hh[:3])
+                t[0] = (t[0] - 1) % p
+                d = _pgcd(h, t)
+            if 0 < len(d) - 1 < deg:
+                split(d)
+                # quotient h / d
+                q, rem = [], h[:]
+                while len(rem) >= len(d):
+                    c = rem[-1]
+                    q.insert(0, c)
+                    for i in range(len(d)):
+                        rem[len(rem) - len(d) + i] = (rem[len(rem) - len(d) + i] - c * d[i]) % p
+                    rem.pop()
+                split(q)
+                return
+    split(g)
+    return sorted(set(roots))
+
+
+R256 = 2 ** 256
+
+
+def points_with_mont_ysq(v, rnd):
+    """curve points whose y^2 has Montgomery representation v (i.e. y^2 = v * R^-1 mod p)"""
+    ysq = v * inv(R256 % p, p) % p
+    y = pow(ysq, (p + 1) // 4, p)
+    if y * y % p != ysq:
+        return []
+    return [(x, y) for x in cubic_roots(0, a, (b - ysq) % p, rnd) if on_curve((x, y))]
